@@ -175,6 +175,8 @@ class CommandResponse(Response):
                 merge_key = resp.merge_key
             except TypeError:
                 self._untagged.append(resp)
+                if resp.merge_barrier:
+                    self._mergeable.clear()
             else:
                 key = (type(resp), merge_key)
                 try:
@@ -233,6 +235,10 @@ class UntaggedResponse(Response):
             response is being written.
 
     """
+
+    #: True if later responses must not be merged into earlier ones, e.g.
+    #: because this response changes message sequence numbers.
+    merge_barrier: bool = False
 
     def __init__(self, text: MaybeBytes | None = None,
                  code: ResponseCode | None = None, *,
